@@ -105,7 +105,7 @@ def split_hist(resp):
 def run(run):
     rng = run.rng
     run.do_ties()
-    quick = run.tier == "quick"
+    quick = run.quick
     all_slots = [(o, i, r) for o in range(12) for i in range(10) for r in (False, True)]
     reqs = ["memo_sph_total"]
     kinds = ["total"]
